@@ -89,6 +89,7 @@ func newEnumType3(args px.List) *EnumType {
 			if !ok {
 				if ci, ok := arg.(booleanValue); ok && idx == top-1 {
 					caseInsensitive = ci.Bool()
+					enums = enums[:idx]
 					return
 				}
 				panic(illegalArgumentType(`Enum[]`, idx, `String`, arg))
